@@ -478,7 +478,9 @@ def proof_stage(out, props_file, targets, extra_hygiene_files=()):
     ass = parse_assumptions(plog)
     info["assumptions"] = ass
     info["discharged"] = len(theorems)
-    files = [f for f in coq_project_files()]
+    pid = os.path.basename(props_file).split("_")[0]
+    files = [f for f in coq_project_files() if f.startswith(("common/", "gen/")) or os.path.basename(f).startswith(pid + "_")
+             or any(os.path.basename(f).startswith(x) for x in extra_hygiene_files)]
     hits = coq_hygiene(files)
     if hits:
         info["failed"] = {"stage": "hygiene", "hits": hits}
